@@ -346,6 +346,10 @@ pub struct PProfile {
     pub ttl_narrow: bool,
     /// let every pending deadline pass at the end and look again
     pub settle: bool,
+    /// % of lookups during whose hold the same client calls close()
+    pub hold_close_pct: u64,
+    /// % of lookups during whose hold the same client calls max_cost()/update_max_cost()
+    pub hold_umc_pct: u64,
 }
 
 impl Default for PProfile {
@@ -381,6 +385,8 @@ impl Default for PProfile {
             vstall_pct: 0,
             ttl_narrow: false,
             settle: false,
+            hold_close_pct: 0,
+            hold_umc_pct: 0,
         }
     }
 }
@@ -400,14 +406,14 @@ pub fn profile_for(prop: &str) -> PProfile {
 fn profile_for_quick(prop: &str) -> PProfile {
     let d = PProfile::default();
     match prop {
-        "C01" => PProfile { over_capacity_pct: 85, chaos_umc_pct: 50, chaos_clear_pct: 10, if_present_pct: 12, collide_pct: 5, vstall_pct: 15, ..d },
+        "C01" => PProfile { over_capacity_pct: 85, chaos_umc_pct: 50, chaos_clear_pct: 10, if_present_pct: 12, collide_pct: 5, vstall_pct: 15, hold_umc_pct: 6, ..d },
         "C02" => PProfile { keys: (1, 5), get_mut_write: true, chaos_clear_pct: 25, collide_pct: 30, lookup_pct: 35, validator_pct: 15, wait_pct: 12, ..d },
         "C06" => PProfile { chaos_clear_pct: 30, over_capacity_pct: 60, ttl_pct: 35, small_buffer_pct: 25, vstall_pct: 20, ..d },
         "C07" => PProfile { clients: (1, 3), keys: (4, 16), over_capacity_pct: 100, lookup_pct: 50, ttl_pct: 5, remove_pct: 5, chaos_umc_pct: 20, ops: (10, 40), collide_pct: 0, exit_only_cb_pct: 10, ..d },
         "C08" => PProfile { chaos_clear_pct: 15, chaos_close_pct: 20, over_capacity_pct: 60, exit_only_cb_pct: 20, ttl_pct: 30, vstall_pct: 20, ..d },
         "C10" => PProfile { wait_pct: 25, chaos_clear_pct: 35, chaos_close_pct: 35, small_buffer_pct: 50, lookup_pct: 10, ops: (3, 12), ..d },
         "C11" => PProfile { chaos_clear_pct: 70, inline_clear_pct: 10, metrics_on: true, ops: (3, 14), ..d },
-        "C12" => PProfile { chaos_close_pct: 70, chaos_clear_pct: 40, finale_close_pct: 50, finale_drop_pct: 40, wait_pct: 8, ops: (2, 10), small_buffer_pct: 30, ..d },
+        "C12" => PProfile { chaos_close_pct: 70, chaos_clear_pct: 40, finale_close_pct: 50, finale_drop_pct: 40, wait_pct: 8, ops: (2, 10), small_buffer_pct: 30, hold_close_pct: 12, ..d },
         "C13" => PProfile { lookup_pct: 75, keys: (1, 12), wide_config: true, chaos_clear_pct: 15, over_capacity_pct: 20, ops: (8, 40), remove_pct: 3, ..d },
         "C15" => PProfile { lookup_pct: 75, keys: (1, 8), wide_config: true, metrics_on: true, ops: (8, 40), remove_pct: 3, chaos_close_pct: 15, ..d },
         "C17" => PProfile { metrics_on: true, inline_clear_pct: 10, over_capacity_pct: 60, small_buffer_pct: 30, ..d },
@@ -536,6 +542,15 @@ pub fn gen_p_family(prop: &str, seed: u64, pf: &PProfile) -> Plan {
                     script.push(Op::StallSelf { ns: rng.range(100, 3000) * MS, skip: rng.below(10) as u32 });
                 }
                 if pickp(pf.lookup_pct) {
+                    // (async flavours only: there close() hands its signal to a one-slot channel and
+                    // returns; the sync close() is a rendezvous with the processor, which may itself
+                    // be waiting for the shard the caller keeps locked - holding a reference across a
+                    // blocking call is the caller's deadlock, like across wait() or clear())
+                    if cfg.flavor != Flavor::Sync && rng.chance(pf.hold_close_pct, 100) {
+                        script.push(Op::WhileHolding { what: 0, v: 0 });
+                    } else if rng.chance(pf.hold_umc_pct, 100) {
+                        script.push(Op::WhileHolding { what: 1 + rng.below(2) as u8, v: (cfg.max_cost / 2 + rng.range(1, 60) as i64).max(1) });
+                    }
                     script.push(match if rng.below(10) < pf.get_ttl_tenths { 7 } else { rng.below(10) } {
                         0..=6 => Op::Get { k, hold: if rng.chance(1, 6) { rng.range(1, 5) as u32 } else { 0 } },
                         7 => Op::GetTtl { k },
@@ -906,6 +921,58 @@ pub fn gen_huge_ttl(prop: &str, seed: u64) -> Plan {
     Plan { prop: prop.into(), family: "L-huge-ttl".into(), seed, cfg, sim, clients: vec![ops], chaos: vec![], finale: if rng.chance(1, 2) { Finale::Close } else { Finale::None }, universe, tags: vec!["lockstep".into(), "under_capacity".into(), "huge_ttl".into(), "final_probe".into()] }
 }
 
+
+/// Hot-key family (C13/C15): large lookup batches (buffer_items in the hundreds) and one client
+/// looking the same key up hundreds of times in a row, so that a single batch carries a long run
+/// of one key - arithmetic on run lengths, counters and the reset window only shows here.
+pub fn gen_hot(prop: &str, seed: u64) -> Plan {
+    let mut rng = Rng::new(seed ^ 0x407);
+    let flavor = pick_flavor(&mut rng);
+    let mut cfg = roomy_cfg(&mut rng, flavor);
+    cfg.buffer_items = *rng.pick(&[260usize, 300, 512, 700, 1024]);
+    cfg.num_counters = *rng.pick(&[64usize, 300, 1000, 4096, 100_000, 100_000]);
+    cfg.metrics = true;
+    let faulty_hot = rng.chance(1, 4);
+    let sim = sim_plan(&mut rng, faulty_hot);
+    let universe: Vec<u64> = vec![rng.range(1, 50), 300 + rng.below(50), rng.range(1 << 33, 1 << 40)];
+    let mut ops: Vec<Op> = Vec::new();
+    let mut writes = 0;
+    for k in &universe {
+        if rng.chance(2, 3) {
+            ops.push(Op::Insert { k: *k, cost: 1, ttl_ns: 0, size: 1 });
+            writes += 1;
+        }
+    }
+    ops.push(Op::Barrier);
+    let rounds = rng.range(1, 3);
+    for _ in 0..rounds {
+        let hot = *rng.pick(&universe);
+        let n = match rng.below(4) {
+            0 => rng.range(250, 262),
+            1 => rng.range(255, 275),
+            2 => rng.range(500, 530),
+            _ => rng.range(100, 700),
+        };
+        for i in 0..n {
+            if rng.chance(1, 150) {
+                ops.push(Op::Get { k: *rng.pick(&universe), hold: 0 });
+            }
+            let _ = i;
+            ops.push(Op::Get { k: hot, hold: 0 });
+        }
+        // fill the stripe so that the batch is flushed, then let it be applied
+        let cold = *rng.pick(&universe);
+        for _ in 0..cfg.buffer_items {
+            ops.push(Op::Get { k: cold, hold: 0 });
+        }
+        ops.push(Op::Barrier);
+    }
+    cfg.buffer_size = cfg.buffer_size.max(writes + 8);
+    let mut sim = sim;
+    sim.max_steps = 600_000;
+    Plan { prop: prop.into(), family: "L-hot".into(), seed, cfg, sim, clients: vec![ops], chaos: vec![], finale: Finale::None, universe, tags: vec!["under_capacity".into(), "hot_key".into()] }
+}
+
 /// Scale family: one client inserts thousands of distinct keys (most with the same TTL), lets the
 /// TTLs pass and the cleanup run, then inspects the quiescent state.  Constants hidden in the
 /// implementation (per-tick limits, buffer sizes, shard counts) only show at this size.
@@ -1042,6 +1109,9 @@ fn gen_plan_inner(prop: &str, seed: u64, variant: u64) -> Plan {
     let prop = over.as_deref().unwrap_or(prop);
     match prop {
         "C03" | "C10" | "C20" if variant % 40 == 11 => gen_huge_ttl(prop, seed),
+        "C13" | "C15" if variant % 97 == 5 => gen_hot(prop, seed),
+        // more client threads than any striping constant inside the library (25 metric stripes)
+        "C17" if variant % 61 == 9 => gen_p_family(prop, seed, &PProfile { clients: (26, 34), keys: (2, 6), ops: (4, 10), barrier_every: (2, 4), lookup_pct: 65, remove_pct: 4, if_present_pct: 3, wait_pct: 0, metrics_on: true, over_capacity_pct: 30, collide_pct: 0, faulty_pct: 10, sleeps: false, ..PProfile::default() }),
         "C04" | "C05" | "C06" | "C01" | "C17" | "C07" | "C08" if variant % 193 == 7 => gen_bulk(prop, seed),
         "C03" if variant % 4 == 2 => gen_p_family(prop, seed, &PProfile { ttl_pct: 70, lookup_pct: 45, over_capacity_pct: 30, remove_pct: 8, vstall_pct: 25, ..PProfile::default() }),
         "C04" if variant % 4 == 2 => gen_p_family(prop, seed, &PProfile { over_capacity_pct: 0, collide_pct: 0, ttl_pct: 30, remove_pct: 10, if_present_pct: 5, wait_pct: 5, vstall_pct: 25, ..PProfile::default() }),
